@@ -406,6 +406,16 @@ def cluster_cases():
                   ["--default-non-copy-union-style", "manually_drop", "--no-derive-copy"], ["--flexarray-dst", "--enable-cxx-namespaces", "--with-derive-default"],
                   ["--opaque-type", "X.*", "--flexarray-dst"], ["--no-layout-tests", "--flexarray-dst", "--with-derive-hash"]):
         cases.append(odd + (extra,))
+    # variant-level annotations (constant / hide / rename) on enums at every nesting level x enum styles x namespaces
+    ann = ("annotated-enums", "hpp", "struct Outer { enum Named { /** <div rustbindgen constant></div> */ N_A, N_B = 4, /** <div rustbindgen hide></div> */ N_C }; Named n;\n"
+           "  struct In { enum Deep { /** <div rustbindgen constant></div> */ D_A = -1, D_B }; enum { /** <div rustbindgen constant></div> */ ANON_A, ANON_B }; } in; };\n"
+           "namespace ns1 { enum InNs { /** <div rustbindgen constant></div> */ I_A, I_B }; namespace ns2 { enum class Scoped : short { /** <div rustbindgen constant></div> */ S_A, S_B = 7 }; } }\n"
+           "enum Top { /** <div rustbindgen constant></div> */ T_A, /** <div rustbindgen replaces=\"T_A\"></div> */ T_B };\n"
+           "/** <div rustbindgen rustified_enum></div> */ enum Ann1 { A1_A, /** <div rustbindgen constant></div> */ A1_B };\n")
+    for st in styles:
+        for ns in ([], ["--enable-cxx-namespaces"]):
+            cases.append(ann + (["--default-enum-style", st] + ns,))
+    cases.append(ann + (["--enable-cxx-namespaces", "--no-prepend-enum-name", "--translate-enum-integer-types"],))
     oddc = ("odd-fields-c", "h", "struct fa { int n; int data[]; };\nstruct fb { char c; struct fa in; };\nunion fu { struct fa f; char z[]; int i; };\n"
             "struct fz { int z[0]; int n; long t[]; };\nstruct fe { };\nstruct ff { struct fe e[0]; char d[]; };\n")
     for extra in ([], ["--flexarray-dst"], ["--flexarray-dst", "--rust-target", "nightly"], ["--explicit-padding", "--flexarray-dst"], ["--impl-debug", "--flexarray-dst"],
